@@ -51,7 +51,7 @@ func GenProgram(b Bias) *rapid.Generator[Program] {
 			QueueSize: rapid.IntRange(0, 3).Draw(t, "queueSize"),
 			Timeout:   rapid.SampledFrom([]time.Duration{time.Millisecond, 100 * time.Millisecond, 100 * time.Millisecond, time.Second, time.Second, 0, -time.Second}).Draw(t, "timeout"),
 			LateGates: rapid.IntRange(0, 3).Draw(t, "lateGates") == 0,
-			CtxFlavor: rapid.SampledFrom([]int{CtxPlain, CtxPlain, CtxCause, CtxChild}).Draw(t, "ctxFlavor"),
+			CtxFlavor: rapid.SampledFrom([]int{CtxPlain, CtxPlain, CtxCause, CtxChild, CtxForeign}).Draw(t, "ctxFlavor"),
 		}
 		if rapid.IntRange(0, 99).Draw(t, "useDeadline") < b.Deadline {
 			p.Deadline = rapid.SampledFrom([]time.Duration{50 * time.Millisecond, 500 * time.Millisecond, 3 * time.Second, 30 * time.Second}).Draw(t, "deadline")
